@@ -30,7 +30,7 @@ ASSUMPTIONS = ['reference optimum certified by its own duality gap (<= 1e-9 of t
 def bounds(tier):
     return {'iterations': 600 if tier == 'quick' else 3000, 'tau': 1e-2 if tier == 'quick' else 1e-3,
             'structures': '21 of 63 (every third + the cyclic triple), 1 truth, known total' if tier == 'quick' else
-            'all 63 x 2 truths x {known, None} + 40 structures of the 4-attribute menu', 'solvers': ['MD', 'RDA', 'IG']}
+            'all 63 x 2 truths x {known, None} + 40 structures of the 4-attribute menu', 'extra': '3 structures around a chordless 5-cycle on 5 attributes; total 1 with noise 2e-5 (MD)', 'solvers': ['MD', 'RDA', 'IG']}
 
 
 def jobs(tier, seed):
@@ -60,9 +60,21 @@ def jobs(tier, seed):
         for si in range(0, len(s4), 2):
             for eng in ['MD', 'RDA', 'IG']:
                 out.append({'dom': 4, 'si': si, 'truth': ['pos', 'sparse'][si % 2], 'engine': eng, 'total': 'known', 'iters': 3000, 'tau': 1e-3, 'seed': seed})
+    # 5 attributes: measurement cliques with a chordless 5-cycle (fill-in between fill-in neighbours) plus noisy one-way marginals
+    for xi in range(len(STRUCTS5)):
+        for eng in ['MD', 'RDA', 'IG']:
+            out.append({'dom': 5, 'si': xi, 'truth': 'pos', 'engine': eng, 'total': 'known', 'iters': 600 if tier == 'quick' else 3000,
+                        'tau': 1e-2 if tier == 'quick' else 1e-3, 'seed': seed})
+    # extreme scale: total 1 with noise 2e-5 (loss ~1e10 at the start; the first accepted mirror-descent step is ~2^-30 of the default one)
+    for si in ([2, 3, 5] if tier == 'quick' else [0, 2, 3, 5, 9, 20]):
+        out.append({'dom': 3, 'si': si, 'truth': 'pos', 'engine': 'MD', 'total': 'known', 'iters': 3000, 'tau': 1e-2, 'seed': seed, 'scale': 'tiny-noise'})
     return out
 
 
+ATTRS5 = ['A', 'B', 'C', 'D', 'E']
+SIZES5 = [2, 2, 3, 2, 2]
+CYCLE5 = (('A', 'B'), ('B', 'C'), ('C', 'D'), ('D', 'E'), ('E', 'A'))
+STRUCTS5 = [CYCLE5 + (('A',), ('C',)), CYCLE5 + (('B',), ('D',), ('E',)), (('A', 'B'), ('B', 'C'), ('C', 'D'), ('D', 'E'), ('C', 'E'))]
 EXTRA3 = [
     (('A', 'B'), ('B', 'A')),
     (('B', 'A'), ('A', 'B'), ('B', 'C')),
@@ -76,6 +88,13 @@ EXTRA3_KINDS = {4: (['dense', 'sparse', 'prefix'], [0.5, 4.0, 1.0]), 5: (['spars
 
 
 def problem_for(job):
+    if job['dom'] == 5:
+        struct = STRUCTS5[job['si']]
+        return ATTRS5, SIZES5, struct, M.Problem(ATTRS5, SIZES5, struct, job['si'], job['truth'], job['seed'], kinds=['dense', 'sparse', 'none', 'prefix'])
+    if job.get('scale') == 'tiny-noise':
+        struct = M.structures(M.MENU3, 3)[job['si']]
+        return M.ATTRS3, M.SIZES3, struct, M.Problem(M.ATTRS3, M.SIZES3, struct, job['si'], job['truth'], job['seed'], total=1.0, noise_mult=1.0,
+                                                      kinds=['dense', 'sparse', 'prefix'], sigmas=[2e-5])
     if job['dom'] == 3 and job['si'] >= 1000:
         attrs, sizes, struct = M.ATTRS3, M.SIZES3, EXTRA3[job['si'] - 1000]
     elif job['dom'] == 3:
